@@ -748,6 +748,11 @@ def run(prog, rep, tier):
              'it when its only other bindings are inside other loops')
     check_stale_loop_reads(prog, rep, ['tenpy/models/model.py', 'tenpy/networks/terms.py'])
     from .c11 import check_hcflag_mpo
+    from ..flow import check_group_stride
+    rep.rule('GROUP-stride', 'loops over grouped sites advance by the size of the group, never by the '
+             'nominal n')
+    if check_group_stride(prog, rep, ['tenpy/models/model.py']) < 1:
+        raise AnalysisError('GROUP-stride: loop over grouped_sites not found')
     rep.rule('HCFLAG-mpo', 'every MPO method that builds another MPO from the W tensors hands on '
              'explicit_plus_hc (a segment / copy without it is half of the Hamiltonian)')
     check_hcflag_mpo(prog, rep)
